@@ -45,8 +45,9 @@ func withWeighting(p *ref.Program, root int, salt uint64) (*ref.Program, int) {
 }
 
 type gradOpts struct {
-	allowKF     bool // recognise the listed finding broadcast_avg
-	skipNonDiff bool
+	allowKF bool         // recognise the listed finding broadcast_avg
+	noValue map[int]bool // tensors whose gradient VALUE the property does not specify (nil-ness, shape, finiteness still checked)
+	tieNode int          // 1 + index of a (Leaky)Relu node whose derivative at exactly 0 is inferred from the observation and only required to lie between the one-sided derivatives (0 = none)
 }
 
 // gradCase runs program p on the model and on the real code, back-propagates
@@ -74,20 +75,50 @@ func gradCase(p *ref.Program, root int, o gradOpts) core.Verdict {
 	if err := tensor.BackPropagate(ts[root]); err != nil {
 		return core.Verdict{Detail: fmt.Sprintf("BackPropagate failed after an accepted forward pass: %v", err), Data: p}
 	}
-	mism := compareGrads(p, ts, vals, grads)
+	if o.tieNode > 0 {
+		if msg := inferTies(p, o.tieNode-1, ts, vals, grads); msg != "" {
+			return core.Verdict{Detail: msg, Data: p}
+		}
+		grads, _ = p.Backward(vals, root, nil, false)
+	}
+	mism := compareGradsOpt(p, ts, vals, grads, o.noValue)
 	if mism == "" {
 		return core.Verdict{OK: true}
 	}
-	if o.allowKF && p.HasExpansion(vals, root) {
-		alt, _ := p.Backward(vals, root, nil, true)
-		if compareGrads(p, ts, vals, alt) == "" {
+	if o.allowKF {
+		if alt := avgModelGrads(p, root); alt != nil && compareGradsOpt(p, ts, vals, alt, o.noValue) == "" {
 			return core.Verdict{KF: kfBroadcastAvg, Detail: mism, Data: p}
 		}
 	}
 	return core.Verdict{Detail: mism, Data: p}
 }
 
+// avgModelGrads: the gradients predicted by the alternative model of the
+// listed known finding (Broadcast's backward rule averages instead of sums),
+// on the primitive mirror of the program; nil if no tracked operand is
+// expanded by a factor > 1 anywhere (the finding cannot show).
+func avgModelGrads(p *ref.Program, root int) []*ref.T {
+	exp, idmap := p.Expand()
+	ev, ok := exp.Forward()
+	if !ok {
+		return nil
+	}
+	if !exp.HasExpansion(ev, idmap[root]) {
+		return nil
+	}
+	eg, _ := exp.Backward(ev, idmap[root], nil, true)
+	out := make([]*ref.T, p.NTensors())
+	for i := range out {
+		out[i] = eg[idmap[i]]
+	}
+	return out
+}
+
 func compareGrads(p *ref.Program, ts []tensor.Tensor, vals, grads []*ref.T) string {
+	return compareGradsOpt(p, ts, vals, grads, nil)
+}
+
+func compareGradsOpt(p *ref.Program, ts []tensor.Tensor, vals, grads []*ref.T, noValue map[int]bool) string {
 	scale := scaleOf(append(append([]*ref.T{}, vals...), grads...)...)
 	for i := range ts {
 		g := ts[i].Gradient()
@@ -106,6 +137,12 @@ func compareGrads(p *ref.Program, ts []tensor.Tensor, vals, grads []*ref.T) stri
 				return fmt.Sprintf("tensor %d: non-finite gradient %v, expected %v", i, got, grads[i])
 			}
 		}
+		if noValue[i] {
+			if !ref.SameShape(got.Shape, vals[i].Shape) {
+				return fmt.Sprintf("gradient of tensor %d has shape %v, tensor has %v", i, got.Shape, vals[i].Shape)
+			}
+			continue
+		}
 		if okc, msg := core.Close(got, grads[i], scale); !okc {
 			return fmt.Sprintf("gradient of tensor %d (shape %v): %s", i, vals[i].Shape, msg)
 		}
@@ -122,4 +159,60 @@ func describeProgram(p *ref.Program) string {
 		s += fmt.Sprintf("t%d=%s%v; ", len(p.Leaves)+i, n.Op, n.In)
 	}
 	return s
+}
+
+// inferTies: for a (Leaky)Relu node with inputs of exactly 0, read the observed
+// gradient of the node's input, derive the per-element derivative the
+// implementation used at 0, require it to lie between the one-sided
+// derivatives (the statement: "a value between them at 0"), and store it in
+// the node's Tie so that the model uses the same convention for the rest of
+// the graph. The node's input must have the activation as its only consumer.
+func inferTies(p *ref.Program, node int, ts []tensor.Tensor, vals, grads []*ref.T) string {
+	n := &p.Nodes[node]
+	if n.Op.K != "Relu" && n.Op.K != "LeakyRelu" {
+		return ""
+	}
+	in := n.In[0]
+	out := len(p.Leaves) + node
+	x := vals[in]
+	hasZero := false
+	for _, v := range x.V {
+		if v == 0 {
+			hasZero = true
+		}
+	}
+	if !hasZero || grads[out] == nil || grads[in] == nil {
+		return ""
+	}
+	g := ts[in].Gradient()
+	if g == nil {
+		return fmt.Sprintf("activation input (tensor %d) has no gradient", in)
+	}
+	obs := rt.Read(g)
+	if !ref.SameShape(obs.Shape, x.Shape) {
+		return fmt.Sprintf("activation input gradient has shape %v, input has %v", obs.Shape, x.Shape)
+	}
+	m := 0.
+	if n.Op.K == "LeakyRelu" {
+		m = n.Op.F
+	}
+	gy := grads[out]
+	tie := make([]float64, len(x.V))
+	for i, v := range x.V {
+		tie[i] = 0.5
+		if v != 0 || gy.V[i] == 0 || m == 1 {
+			continue
+		}
+		d := obs.V[i] / gy.V[i] // derivative used at 0
+		if math.IsNaN(d) || math.IsInf(d, 0) {
+			return fmt.Sprintf("%s: non-finite gradient %v at an input of exactly 0", n.Op, obs.V[i])
+		}
+		lam := (d - m) / (1 - m)
+		if lam < -1e-9 || lam > 1+1e-9 {
+			return fmt.Sprintf("%s: derivative used at an input of exactly 0 is %v, not between the one-sided derivatives %v and 1 (input %v, upstream %v, observed gradient %v)", n.Op, d, m, x, gy, obs)
+		}
+		tie[i] = math.Max(0, math.Min(1, lam))
+	}
+	n.Op.Tie = tie
+	return ""
 }
